@@ -217,6 +217,7 @@ func TestVerifC04MergeSplit(t *testing.T) {
 					}
 				}
 			}
+			out.Linef("obs last_is_receiver %d", vB(len(r.res) > 0 && r.res[len(r.res)-1] == r1.req))
 			if cut {
 				out.Linef("nt")
 				out.Linef("stat cut_inside_resource 1")
